@@ -98,10 +98,18 @@ def r12_1(ctx):
     T = cg.types
     n = 0
     regions = 0
+    # accepted idiom (one symbol, one reason): Progress.make_tasks_table(tasks) is the overridable rendering hook - it only READS the
+    # tasks it is handed to draw them and updates nothing; inside the package it is reached from refresh()/get_renderable() with the
+    # lock held, a direct outside call draws a momentary snapshot.  No accounting clause of the property depends on it.
+    READ_ONLY_RENDER_HOOKS = {"make_tasks_table"}
     for f in _progress_methods(ctx):
         if f.name in ("__init__",):
             continue
         regions += sum(1 for _w, ls, _h in locks.lock_withs(f) if PLOCK in ls)
+        if f.name in READ_ONLY_RENDER_HOOKS:
+            stores = [x for x in walk_local(f.node) if isinstance(x, ast.Attribute) and isinstance(x.ctx, (ast.Store, ast.Del)) and x.attr in TASK_FIELDS]
+            ctx.check(not stores, f.fq, "read-only rendering hook", f.where, "the rendering hook writes no task state", f"{f.qualname} is exempt from the lock rule as a read-only rendering hook but writes task state: {[norm(x) for x in stores]}")
+            continue
         env = T.local_types(f)
         for x in walk_local(f.node):
             what = None
